@@ -288,3 +288,308 @@ def kron_all(vs):
 
 def all_configs(dims):
     return itertools.product(*[range(d) for d in dims])
+
+
+# ----------------------------------------------------------------------------------------------------------------
+# state generators.  A case is a JSON-able dict; `build_state(case)` is a pure function of it.
+
+
+def _nprng(case, salt=0):
+    return np.random.default_rng([int(case['seed']) & 0xFFFFFFFF, salt])
+
+
+def reachable_bond_charges(sites, Q=None, nprng=None):
+    """allowed charge values (as tuples) on every bond 0..L for a finite chain with total charge Q (chosen among
+    the reachable ones when None). Bond charges are those of the 'vL' leg (qconj=+1) of the tensor right of it."""
+    chinfo = sites[0].leg.chinfo
+    L = len(sites)
+    zero = tuple(int(x) for x in chinfo.make_valid(None))
+    qs = [s.leg.charges for s in sites]  # (blocks, nq)
+    F = [{zero}]
+    for i in range(L):
+        nxt = set()
+        for q in F[-1]:
+            for c in qs[i]:
+                nxt.add(tuple(int(x) for x in chinfo.make_valid(np.array(q) + c)))
+        F.append(nxt)
+    if Q is None:
+        cand = sorted(F[L])
+        Q = cand[int(nprng.integers(0, len(cand)))]
+    R = [None] * (L + 1)
+    R[L] = {tuple(Q)}
+    for i in range(L - 1, -1, -1):
+        prv = set()
+        for q in R[i + 1]:
+            for c in qs[i]:
+                prv.add(tuple(int(x) for x in chinfo.make_valid(np.array(q) - c)))
+        R[i] = prv
+    return [sorted(F[i] & R[i]) for i in range(L + 1)], tuple(Q)
+
+
+def random_bond_legs(sites, nprng, max_mult=3, bc='finite', keep_prob=0.8):
+    """random virtual legs (qconj=+1, i.e. 'vL' legs) for bonds 0..L with non-uniform dimensions."""
+    from tenpy.linalg import np_conserved as npc
+    chinfo = sites[0].leg.chinfo
+    L = len(sites)
+    if chinfo.qnumber == 0:
+        dims = [int(nprng.integers(1, max_mult + 2)) for _ in range(L + 1)]
+        if bc == 'finite':
+            dims[0] = dims[L] = 1
+        return [npc.LegCharge.from_trivial(d, chinfo) for d in dims]
+    allowed, Q = reachable_bond_charges(sites, None, nprng)
+    legs = []
+    for i, al in enumerate(allowed):
+        if bc == 'finite' and i in (0, L):
+            chosen = [(al[0], 1)]
+        else:
+            keep = [q for q in al if nprng.random() < keep_prob] or [al[int(nprng.integers(0, len(al)))]]
+            chosen = [(q, int(nprng.integers(1, max_mult + 1))) for q in keep]
+        qflat = [list(q) for q, m in chosen for _ in range(m)]
+        leg = npc.LegCharge.from_qflat(chinfo, qflat, qconj=+1)
+        # from_qflat keeps the given order; sort + bunch as tenpy's own constructors end up with
+        _, leg = leg.sort(bunch=True)
+        legs.append(leg)
+    return legs
+
+
+def random_charged_tensors(sites, nprng, bc='finite', entries='normal', complex_=False, max_mult=3):
+    """list of npc tensors B_i (labels vL,p,vR), charge rule satisfied with qtotal 0, random entries."""
+    from tenpy.linalg import np_conserved as npc
+    legs = random_bond_legs(sites, nprng, max_mult=max_mult, bc=bc)
+
+    def func(size):
+        if entries == 'int':
+            x = nprng.integers(-3, 4, size=size).astype(float)
+            if complex_:
+                x = x + 1j * nprng.integers(-2, 3, size=size)
+            return x
+        x = nprng.normal(size=size)
+        if complex_:
+            x = x + 1j * nprng.normal(size=size)
+        return x
+
+    Bs = []
+    for i, s in enumerate(sites):
+        B = npc.Array.from_func(func, [legs[i], s.leg, legs[i + 1].conj()], dtype=complex if complex_ else float,
+                                labels=['vL', 'p', 'vR'], shape_kw='size')
+        Bs.append(B)
+    return Bs, legs
+
+
+def dyadic_S(n, nprng):
+    """singular values that are powers of 4 (exact square roots, exact inverses in floating point)."""
+    return np.array([4.0 ** int(k) for k in nprng.integers(-2, 2, size=n)])
+
+
+def sites_of(case):
+    return build_sites(case['sites'])
+
+
+def build_state(case):
+    """-> dict(psi=MPS, ref=dense reference state of shape dims or None, ref_kind=str, info={...}).
+    `ref` is what the MPS must denote (including psi.norm) according to the documentation of the constructor,
+    computed WITHOUT any MPS method."""
+    from tenpy.networks.mps import MPS
+    from tenpy.linalg import np_conserved as npc
+    kind = case['kind']
+    sites = sites_of(case)
+    L = len(sites)
+    nprng = _nprng(case)
+    cplx = bool(case.get('complex', False))
+    info = {}
+    with warnings.catch_warnings():
+        warnings.simplefilter('ignore')
+        if kind == 'product':
+            p_state, vecs = [], []
+            for i, s in enumerate(sites):
+                mode = case['p_modes'][i]
+                inv_labels = sorted(s.state_labels.items())
+                if mode == 'label':
+                    lab, idx = inv_labels[int(nprng.integers(0, len(inv_labels)))]
+                    p_state.append(lab)
+                    e = np.zeros(s.dim)
+                    e[idx] = 1.0
+                    vecs.append(e)  # labels refer to the site's own basis
+                elif mode == 'int':
+                    k = int(nprng.integers(0, s.dim))
+                    p_state.append(k)
+                    e = np.zeros(s.dim)
+                    e[k] = 1.0
+                    vecs.append(e[s.perm] if case['permute'] else e)
+                else:  # local vector; with charges only a basis vector times a number is allowed
+                    if s.leg.chinfo.qnumber > 0:
+                        v = np.zeros(s.dim, dtype=complex if cplx else float)
+                        v[int(nprng.integers(0, s.dim))] = float(nprng.integers(1, 4)) / 2.0
+                    else:
+                        v = nprng.integers(-3, 4, size=s.dim).astype(complex if cplx else float) / 2.0
+                        if cplx:
+                            v = v + 1j * nprng.integers(-2, 3, size=s.dim) / 2.0
+                        if not np.any(v):
+                            v[0] = 1.0
+                    p_state.append(v)
+                    vecs.append(v[s.perm] if case['permute'] else v)
+            psi = MPS.from_product_state(sites, p_state, bc=case.get('bc', 'finite'),
+                                         dtype=complex if cplx else float, permute=case['permute'],
+                                         form=case.get('form', 'B'), unit_cell_width=L)
+            ref = vecs[0]
+            for v in vecs[1:]:
+                ref = np.multiply.outer(ref, v)
+            info = dict(p_state=p_state, vecs=vecs)
+            return dict(psi=psi, ref=ref, ref_kind='exact', info=info)
+        if kind == 'full':
+            v, q = random_sector_vector(sites, nprng, cplx, density=case.get('density', 1.0))
+            arr = psi_to_npc(sites, v, q)
+            psi = MPS.from_full(sites, arr, form=case.get('form'), normalize=case.get('normalize', True),
+                                unit_cell_width=L)
+            ref = v if not case.get('normalize', True) else v / np.linalg.norm(v)
+            return dict(psi=psi, ref=ref, ref_kind='svd', info=dict(input=v))
+        if kind in ('randB', 'book'):
+            Bs, legs = random_charged_tensors(sites, nprng, bc='finite', entries=case.get('entries', 'normal'),
+                                              complex_=cplx, max_mult=case.get('max_mult', 3))
+            dense = [B.to_ndarray() for B in Bs]
+            if kind == 'book':
+                Ss = [dyadic_S(leg.ind_len, nprng) for leg in legs]
+                forms = case['forms']
+                psi = MPS(sites, Bs, Ss, bc='finite', form=[f if f is None else tuple(x / 2.0 for x in f) for f in forms],
+                          unit_cell_width=L)
+                return dict(psi=psi, ref=None, ref_kind='none', info=dict(dense=dense))
+            Ss = [np.ones(leg.ind_len) for leg in legs]
+            psi = MPS(sites, Bs, Ss, bc='finite', form=None, unit_cell_width=L)
+            plain = np_plain(dense)
+            if case.get('canon') is not None:
+                psi.canonical_form_finite(renormalize=bool(case['canon']))
+                ref = plain / np.linalg.norm(plain) if case['canon'] else plain
+                return dict(psi=psi, ref=ref, ref_kind='svd', info=dict(dense=dense, plain=plain))
+            return dict(psi=psi, ref=plain, ref_kind='plain', info=dict(dense=dense, plain=plain))
+        if kind == 'bflat':
+            # tensors of a random charged chain, written in the conserve=None basis order (permute=True)
+            Bs, legs = random_charged_tensors(sites, nprng, bc='finite', entries='normal', complex_=cplx,
+                                              max_mult=case.get('max_mult', 3))
+            dense = [B.to_ndarray() for B in Bs]  # (vL, p, vR) in the sites' own basis order
+            Bflat = []
+            for s, B in zip(sites, dense):
+                Bp = B.transpose(1, 0, 2)  # (p, vL, vR)
+                if case['permute']:
+                    inv = np.argsort(s.perm)
+                    Bp = Bp[inv, :, :]  # so that Bp[s.perm] is the tensor in the site's order
+                Bflat.append(Bp)
+            psi = MPS.from_Bflat(sites, Bflat, SVs=None, bc='finite', dtype=None, permute=case['permute'],
+                                 form=None, legL=legs[0], unit_cell_width=L)
+            plain = np_plain(dense)
+            ran_canon = L > 1 and max(B.shape[2] for B in dense[:-1]) > 1
+            ref = plain / np.linalg.norm(plain) if ran_canon else plain
+            return dict(psi=psi, ref=ref, ref_kind='svd' if ran_canon else 'plain',
+                        info=dict(dense=dense, plain=plain, Bflat=Bflat, ran_canon=ran_canon))
+        if kind == 'singlets':
+            s = sites[0]
+            up, down = case['up'], case['down']
+            pairs = [tuple(p) for p in case['pairs']]
+            lonely = list(case['lonely'])
+            psi = MPS.from_singlets(s, L, pairs, up=up, down=down, lonely=lonely,
+                                    lonely_state=case['lonely_state'], bc='finite', unit_cell_width=L)
+            iu, idn = s.state_labels[up], s.state_labels[down]
+            il = s.state_labels[case['lonely_state']]
+            ref = np.zeros([s.dim] * L)
+            # sum over the 2^npairs terms
+            for signs in itertools.product([0, 1], repeat=len(pairs)):
+                idx = [None] * L
+                amp = 1.0
+                for (a, b), sg in zip(pairs, signs):
+                    if sg == 0:
+                        idx[a], idx[b] = iu, idn
+                    else:
+                        idx[a], idx[b] = idn, iu
+                        amp = -amp
+                    amp = amp * 0.5 ** 0.5
+                for x in lonely:
+                    idx[x] = il
+                ref[tuple(idx)] += amp
+            return dict(psi=psi, ref=ref, ref_kind='svd', info={})
+        if kind == 'covering':
+            # local random states on disjoint site sets, interleaved
+            index_map = [list(m) for m in case['index_map']]
+            locals_, local_refs = [], []
+            for k, m in enumerate(index_map):
+                lsites = [sites[i] for i in m]
+                v, q = random_sector_vector(lsites, _nprng(case, 100 + k), cplx)
+                v = v / np.linalg.norm(v)
+                if len(m) == 1:
+                    # one-site local MPS: a product state with an explicit vector
+                    lp = MPS.from_product_state(lsites, [v.reshape(-1)], permute=False,
+                                                dtype=complex if cplx else float, unit_cell_width=1)
+                else:
+                    lp = MPS.from_full(lsites, psi_to_npc(lsites, v, q), unit_cell_width=len(m))
+                locals_.append(lp)
+                local_refs.append(v)
+            psi = MPS.from_product_mps_covering(locals_, index_map, bc='finite', unit_cell_width=L)
+            ref = local_refs[0]
+            for v in local_refs[1:]:
+                ref = np.multiply.outer(ref, v)
+            order = [i for m in index_map for i in m]  # axis k of ref lives on site order[k]
+            ref = np.transpose(ref, np.argsort(order))
+            return dict(psi=psi, ref=ref, ref_kind='svd', info={})
+    raise ValueError('unknown kind ' + repr(kind))
+
+
+FORMS = ['A', 'B', 'C', 'G']
+
+
+def gen_case(rng, kinds, Lmax=6, dmax=1024):
+    """draw one case description."""
+    kind = rng.choice(kinds)
+    L = rng.randint(2, Lmax)
+    case = dict(kind=kind, seed=rng.getrandbits(31), complex=rng.random() < 0.3)
+    if kind == 'product':
+        L = rng.randint(1, Lmax + 1)
+        case['sites'] = gen_site_spec(rng, L, dmax=dmax)
+        case['p_modes'] = [rng.choice(['label', 'int', 'vec']) for _ in range(L)]
+        case['permute'] = rng.random() < 0.6
+        case['form'] = rng.choice(FORMS)
+    elif kind == 'full':
+        case['sites'] = gen_site_spec(rng, L, dmax=dmax)
+        case['form'] = rng.choice([None] + FORMS)
+        case['normalize'] = rng.random() < 0.5
+        case['density'] = rng.choice([1.0, 1.0, 0.6])
+    elif kind in ('randB', 'book', 'bflat'):
+        case['sites'] = gen_site_spec(rng, L, dmax=dmax)
+        case['max_mult'] = rng.choice([1, 2, 2, 3])
+        if kind == 'randB':
+            case['canon'] = rng.choice([None, True, False, False])
+        if kind == 'book':
+            case['entries'] = 'int'
+            names = rng.choice([['A'], ['B'], ['C'], ['G'], ['Th'], ['A', 'B', 'C', 'G', 'Th']])
+            case['forms'] = [list(HALF[rng.choice(names)]) for _ in range(L)]
+        if kind == 'bflat':
+            case['permute'] = rng.random() < 0.6
+    elif kind == 'singlets':
+        L = rng.randint(2, min(Lmax + 2, 8))
+        k, up, down, lon = rng.choice([
+            (('SpinHalf', None), 'up', 'down', 'up'), (('SpinHalf', 'Sz'), 'up', 'down', 'down'),
+            (('SpinHalf', 'parity'), 'up', 'down', 'up'), (('Spin1', 'Sz'), 'up', 'down', '0.0'),
+            (('Spin1', None), '1.0', '0.0', 'down'), (('Boson1', 'N'), '1', 'vac', 'vac'),
+            (('Boson2', 'N'), '2', '1', '0'), (('Boson2', 'parity'), '1', '0', '2')])
+        case['sites'] = {'kinds': [[k[0], k[1]]] * L}
+        idx = list(range(L))
+        rng.shuffle(idx)
+        npairs = rng.randint(1, L // 2)
+        case['pairs'] = [[idx[2 * j], idx[2 * j + 1]] for j in range(npairs)]
+        case['lonely'] = idx[2 * npairs:]
+        case.update(up=up, down=down, lonely_state=lon, complex=False)
+    elif kind == 'covering':
+        # bosonic sites only: the tensor product of the local states is then unambiguous
+        bos = [k for k in SITE_KINDS if k[0] in ('SpinHalf', 'Spin1', 'Boson2', 'Boson1')]
+        k = rng.choice(bos)
+        L = rng.randint(2, min(Lmax, 6) if site_dim(k[0]) > 2 else min(Lmax + 1, 8))
+        case['sites'] = {'kinds': [[k[0], k[1]]] * L}
+        idx = list(range(L))
+        rng.shuffle(idx)
+        maps, pos = [], 0
+        while pos < L:
+            n = min(rng.choice([1, 2, 2, 3]), L - pos)
+            m = idx[pos:pos + n]
+            if rng.random() < 0.5:
+                m = sorted(m)
+            maps.append(m)
+            pos += n
+        case['index_map'] = maps
+    return case
